@@ -230,6 +230,14 @@ hwloc_shmem_topology_adopt(hwloc_topology_t *topologyp,
   /* clear userdata callbacks pointing to the writer process' functions */
   new->userdata_export_cb = NULL;
   new->userdata_import_cb = NULL;
+  /* duplicate the allowed sets so that hwloc_topology_allow() can modify them */
+  new->allowed_cpuset = hwloc_bitmap_dup(old->allowed_cpuset);
+  new->allowed_nodeset = hwloc_bitmap_dup(old->allowed_nodeset);
+  if (!new->allowed_cpuset || !new->allowed_nodeset) {
+    hwloc_bitmap_free(new->allowed_cpuset);
+    hwloc_bitmap_free(new->allowed_nodeset);
+    goto out_with_support;
+  }
   /* duplicate topo infos so that we can modify them */
   new->infos.array = NULL;
   new->infos.count = 0;
@@ -262,6 +270,8 @@ hwloc__topology_disadopt(hwloc_topology_t topology)
 {
   hwloc_components_fini();
   hwloc__free_infos(&topology->infos);
+  hwloc_bitmap_free(topology->allowed_cpuset);
+  hwloc_bitmap_free(topology->allowed_nodeset);
   munmap(topology->adopted_shmem_addr, topology->adopted_shmem_length);
   free(topology->support.discovery);
   free(topology->support.cpubind);
